@@ -5,7 +5,8 @@ CONSTANTS
   Seeded <- MC_Seeded
   Build <- MC_Build
   MaxCalls <- MC_MaxCalls
-  Worlds <- MC_Worlds
+  WorldPairs <- MC_WorldPairs
+  SetupChoices <- MC_SetupChoices
   Problems <- MC_Problems
   Region <- MC_Region
   RestoreRng <- MC_RestoreRng
